@@ -3,71 +3,24 @@
 package main
 
 import (
-	"encoding/json"
 	"flag"
 	"fmt"
 	"os"
 	"sort"
+
+	"verifharness/internal/drv"
 )
 
-type stats struct {
-	Cases    int            `json:"cases"`
-	Steps    int            `json:"steps"`
-	Distinct int            `json:"distinct_nontrivial"`
-	Dist     map[string]int `json:"distribution"`
-	Samples  []string       `json:"samples"`
-	Notes    []string       `json:"notes,omitempty"`
-	seen     map[uint64]bool
-}
+type stats = drv.Stats
+type common = drv.Common
+type replayCase = drv.ReplayCase
 
-func newStats() *stats { return &stats{Dist: map[string]int{}, seen: map[uint64]bool{}} }
-
-func (s *stats) inc(k string) { s.Dist[k]++ }
-
-// mark records a case by the hash of its canonical trace; nontrivial says whether it counts.
-func (s *stats) mark(h uint64, nontrivial bool) {
-	if nontrivial && !s.seen[h] {
-		s.seen[h] = true
-		s.Distinct++
-	}
-}
-
-func fnv(h uint64, s string) uint64 {
-	if h == 0 {
-		h = 14695981039346656037
-	}
-	for i := 0; i < len(s); i++ {
-		h ^= uint64(s[i])
-		h *= 1099511628211
-	}
-	return h
-}
-
-func (s *stats) write(path string) {
-	if path == "" {
-		return
-	}
-	b, _ := json.MarshalIndent(s, "", " ")
-	_ = os.WriteFile(path, b, 0o644)
-}
-
-type common struct {
-	seed  uint64
-	cases int
-	out   string
-	stats string
-	tier  string
-}
-
-func commonFlags(fs *flag.FlagSet) *common {
-	c := &common{}
-	fs.Uint64Var(&c.seed, "seed", 1, "seed")
-	fs.IntVar(&c.cases, "cases", 100, "number of cases")
-	fs.StringVar(&c.out, "out", "trace.txt", "trace output")
-	fs.StringVar(&c.stats, "stats", "", "stats json output")
-	fs.StringVar(&c.tier, "tier", "quick", "quick|thorough")
-	return c
-}
+func newStats() *stats                     { return drv.NewStats() }
+func fnv(h uint64, s string) uint64        { return drv.Fnv(h, s) }
+func commonFlags(fs *flag.FlagSet) *common { return drv.CommonFlags(fs) }
+func readCases(path string) []replayCase   { return drv.ReadCases(path) }
+func atoi(s string) int                    { return drv.Atoi(s) }
+func atoiDef(ws []string, i, def int) int  { return drv.AtoiDef(ws, i, def) }
 
 var commands = map[string]func(args []string) int{}
 
